@@ -112,6 +112,35 @@ func (g *vfGen) genC12() {
 			g.emit(vfOp("decl", "xml", []byte(l), []byte(xdoc), len(lead)+len(xd)+2))
 		}
 	}
+	// directed: duplicated attributes (only the first counts), several metas, documents whose first XML token is
+	// not a declaration, declarations that end right after `encoding=`
+	for i := 0; i < g.pick(60, 2000); i++ {
+		l, l2 := g.label(), g.label()
+		docs := []string{
+			"<html><head><meta charset=" + l + " charset=" + l2 + "></head>caf\xe9",
+			"<html><head><meta charset=\"" + l + "\" CHARSET='" + l2 + "' charset=x></head>caf\xe9",
+			"<html><head><meta http-equiv=refresh http-equiv=content-type content=\"text/html; charset=" + l + "\"></head>caf\xe9",
+			"<html><head><meta http-equiv=content-type content=\"text/html\" content=\"text/html; charset=" + l + "\"></head>caf\xe9",
+			"<html><head><meta content=\"text/html; charset=" + l + "\" http-equiv=content-type http-equiv=refresh></head>caf\xe9",
+			"<html><head><meta name=a><meta charset=" + l + "><meta charset=" + l2 + "></head>caf\xe9",
+			"<html><head><meta http-equiv=content-type content=\"text/html; charset=" + l + "\" charset=" + l2 + "></head>caf\xe9",
+			"<html><head><meta charset=\"\"><meta charset=" + l + "></head>caf\xe9",
+		}
+		for _, d := range docs {
+			g.emit(vfOp("cs", "html", []byte(d)))
+			g.emit(vfOp("walk", []byte(d), 0))
+		}
+		xdocs := []string{
+			"<root encoding=\"" + l + "\">caf\xe9</root>", "<!-- c --><?xml version=\"1.0\" encoding=\"" + l + "\"?><a/>",
+			"<?xml version=\"1.0\" encoding=?><a/>", "<?xml version=\"1.0\" encoding=", "<?xml encoding=\"" + l + "\"", "<?xml version=\"1.0\" encoding=\"" + l + "\"?",
+			"<?xml-stylesheet encoding=\"" + l + "\"?><a/>", "<?XML version=\"1.0\" encoding=\"" + l + "\"?><a/>", "text <?xml version=\"1.0\" encoding=\"" + l + "\"?><a/>",
+			"<?xml version=\"1.0\" encoding=\"" + l + "\" encoding='" + l2 + "'?><a/>", "<?xml version=\"1.0\" encoding=" + l + "?><a/>",
+		}
+		for _, d := range xdocs {
+			g.emit(vfOp("cs", "xml", []byte(d)))
+			g.emit(vfOp("walk", []byte(d), 0))
+		}
+	}
 	// extraction helpers on raw strings
 	for i := 0; i < g.pick(500, 20000); i++ {
 		l := g.label()
